@@ -1,4 +1,5 @@
 import OnetVerif.Model.C03
+import OnetVerif.Shapes
 /-! Property C03 — wire integrity: values, framing and order survive any segmentation.
 Property theorems (`c03_…`), the lemmas they need, and non-vacuity examples. -/
 namespace C03
@@ -609,5 +610,68 @@ example (junk : List Nat) (c : Segs) (hc : c.flatten = wire [m1] ++ (be32 65 ++ 
 /-- the in-memory queues with capacity 1: a blocked send is skipped, order is kept -/
 example : (lrun 1 {} [.send [1], .send [2], .move, .send [3], .recv, .move, .recv]).1.got = [[1], [3]] := by
   decide
+
+/-! ### the code regions the model stands for
+Regenerated from /repo's source on every run (`harness/cmd/astfacts` → `OnetVerif/Shapes.lean`): the
+calls that matter for synchronisation and data flow, the lock regions and (for decision logic) the
+conditions, in source order.  A re-ordering, a dropped call or a changed condition breaks these
+obligations even when no sampled input or schedule shows a difference; the check then searches for
+a failing input. -/
+theorem c03_shape_tcp_TCPConn_Receive :
+    Shapes.network_tcp_TCPConn_Receive =
+   ["c.receiveRaw", "Unmarshal", "Size"] := rfl
+
+theorem c03_shape_tcp_TCPConn_receiveRawProd :
+    Shapes.network_tcp_TCPConn_receiveRawProd =
+   ["receiveMutex.Lock", "defer:receiveMutex.Unlock", "timeoutLock.RLock", "time.Now",
+     "Now().Add", "conn.SetReadDeadline", "timeoutLock.RUnlock", "binary.Read", "if:(err!=nil)",
+     "return:nil,xerrors.Errorf(\"\",handleError(err))", "if:(total>MaxPacketSize)",
+     "return:nil,xerrors.Errorf(\"\",c.conn.RemoteAddr().String(),total,MaxPacketSize,ErrUnknown)",
+     "timeoutLock.RLock", "time.Now", "Now().Add", "conn.SetReadDeadline", "timeoutLock.RUnlock",
+     "conn.Read", "if:(err!=nil)", "c.updateRx",
+     "return:nil,xerrors.Errorf(\"\",handleError(err))", "buffer.Write", "if:(err!=nil)", "Size",
+     "c.updateRx", "return:buffer.Bytes(),nil"] := rfl
+
+theorem c03_shape_tcp_TCPConn_Send :
+    Shapes.network_tcp_TCPConn_Send =
+   ["sendMutex.Lock", "defer:sendMutex.Unlock", "Marshal", "c.sendRaw"] := rfl
+
+theorem c03_shape_tcp_TCPConn_sendRaw :
+    Shapes.network_tcp_TCPConn_sendRaw =
+   ["timeoutLock.RLock", "time.Now", "Now().Add", "conn.SetWriteDeadline", "timeoutLock.RUnlock",
+     "Size", "binary.Write", "conn.Write", "c.updateTx", "Size", "c.updateTx"] := rfl
+
+theorem c03_shape_encoding_Marshal :
+    Shapes.network_encoding_Marshal =
+   ["MessageType", "binary.Write", "protobuf.Encode", "b.Write", "b.Bytes"] := rfl
+
+theorem c03_shape_encoding_Unmarshal :
+    Shapes.network_encoding_Unmarshal =
+   ["bytes.NewBuffer", "binary.Read", "if:(err!=nil)",
+     "return:ErrorType,nil,xerrors.Errorf(\"\",err)", "registry.get", "if:!ok",
+     "return:ErrorType,nil,xerrors.Errorf(\"\",tID.String())", "ptrVal.Interface",
+     "DefaultConstructors", "b.Bytes", "protobuf.DecodeWithConstructors", "if:(err!=nil)",
+     "return:ErrorType,nil,xerrors.Errorf(\"\",err)", "return:tID,ptrVal.Interface(),nil"] := rfl
+
+theorem c03_shape_router_Router_handleConn :
+    Shapes.network_router_Router_handleConn =
+   ["defer{", "c.Close", "c.Rx", "c.Tx", "traffic.updateRx", "traffic.updateTx", "wg.Done",
+     "r.removeConnection", "verifC10Point", "}", "verifC10Point", "c.Remote", "c.Receive",
+     "verifC10Point", "r.Lock", "r.Unlock", "recv:paused", "r.Lock", "r.Unlock", "r.Closed",
+     "r.triggerConnectionErrorHandlers", "r.triggerConnectionErrorHandlers",
+     "r.triggerConnectionErrorHandlers", "verifC10Point", "msgTraffic.updateRx", "r.Dispatch"] := rfl
+
+theorem c03_shape_local_LocalConn_Send :
+    Shapes.network_local_LocalConn_Send =
+   ["Marshal", "lc.updateTx", "manager.send"] := rfl
+
+theorem c03_shape_local_LocalConn_Receive :
+    Shapes.network_local_LocalConn_Receive =
+   ["recv:outgoingQueue", "lc.updateRx", "Unmarshal", "Size"] := rfl
+
+theorem c03_shape_local_LocalManager_send :
+    Shapes.network_local_LocalManager_send =
+   ["lm.Lock", "defer:lm.Unlock", "send:incomingQueue"] := rfl
+
 
 end C03
